@@ -282,7 +282,7 @@ def fixture_action(rng, tok, bad_detail=False, old_style=False):
         # a fixture written against the older API: it overrides setUp() itself (still supported), attaches
         # its details and then fails or is interrupted - nobody has cleaned it up when useFixture sees that
         spec["setup"] = "ok"
-        spec["setup_override"] = rng.choice(["error", "fail", "kbd", "exit"])
+        spec["setup_override"] = rng.choice(["error", "fail", "kbd", "exit", "multi2"])
         spec.pop("nested", None)
     if bad_detail and rng.random() < 0.3:
         # only where testtools itself evaluates the detail (successful setUp -> gathering cleanup);
